@@ -217,7 +217,9 @@ def gen_plan(rnd):
         steps[k:k] = ins
     steps.append(dict(op='check', short=False))
     steps.append(dict(op='check', short=True))
-    return dict(wires=wires, watch=watch, layout=layout, nest=rnd.random() < 0.25, steps=steps)
+    # second clock domain: the clocked producers live under their own (ungated) ClockDriver, visited before or after the recorder's
+    multi = rnd.choice(['first', 'last']) if rnd.random() < 0.2 else None
+    return dict(wires=wires, watch=watch, layout=layout, nest=rnd.random() < 0.25, steps=steps, multi=multi)
 
 
 # --------------------------------------------------------------------------- execution + judgement
@@ -285,18 +287,27 @@ def run_plan(plan, stats=None):
     side = Box(hw, 'side')
     ws = [(side if s.get('scope') else top).wire(s['name'], s['width']) for s in specs]
     blocks = {}
+    dom = None
+    if plan.get('multi'):
+        dom = Box(hw, 'dom')
+        dom.clockDriver = py4hw.ClockDriver('clk2', base=hw.clockDriver, wire=hw.wire('clk2w'))
+    in_dom = set()
     for i, s in enumerate(specs):
         k, nm = s['kind'], 'd%d' % i
+        par = top
+        if dom is not None and k in ('seq', 'reg', 'counter'):
+            par = dom
+            in_dom.add(nm)
         if k == 'seq':
-            blocks[nm] = py4hw.Sequence(top, nm, list(s['values']), ws[i], once=bool(s.get('once')))
+            blocks[nm] = py4hw.Sequence(par, nm, list(s['values']), ws[i], once=bool(s.get('once')))
         elif k == 'buf':
             blocks[nm] = py4hw.Buf(top, nm, ws[s['src']], ws[i])
         elif k == 'not':
             blocks[nm] = py4hw.Not(top, nm, ws[s['src']], ws[i])
         elif k == 'reg':
-            blocks[nm] = py4hw.Reg(top, nm, d=ws[s['src']], q=ws[i])
+            blocks[nm] = py4hw.Reg(par, nm, d=ws[s['src']], q=ws[i])
         elif k == 'counter':
-            blocks[nm] = py4hw.Counter(top, nm, ws[s['reset']], ws[s['inc']], ws[i])
+            blocks[nm] = py4hw.Counter(par, nm, ws[s['reset']], ws[s['inc']], ws[i])
     pb = Probe(top, 'pb', ws, 'p_')
 
     objs = []
@@ -320,8 +331,24 @@ def run_plan(plan, stats=None):
         raise Bad('raises', dict(stage='construct'), observed=repr(ex)[:200], what='Waveform(...) raises %r' % (ex,))
     pa = Probe(top, 'pa', ws, 'q_')
     every = dict(blocks, pb=pb, wf=wf, pa=pa)
-    top.children = {k: every[k] for k in plan['layout']}        # the planned visiting order of the leaves
+    top.children = {k: every[k] for k in plan['layout'] if k not in in_dom}        # the planned visiting order of the leaves
+    if dom is not None:
+        # the other domain's leaves are registered (and its driver visited) before or after the recorder's
+        rest = {k: v for k, v in hw.children.items() if v is not dom}
+        hw.children = dict([('dom', dom)] + list(rest.items())) if plan['multi'] == 'first' else dict(list(rest.items()) + [('dom', dom)])
     sim = hw.getSimulator()
+    # reference = the value every wire carries when a cycle starts (going into the clock edge), taken by a wrapper
+    # around Simulator._clk_cycle; the probes around the recorder are a cross-check of the clocking-phase view
+    pre = [[] for _ in ws]
+    real_cycle = sim._clk_cycle
+
+    def cycle_with_snapshot():
+        for lst, w in zip(pre, ws):
+            lst.append(w.get())
+        return real_cycle()
+    sim._clk_cycle = cycle_with_snapshot
+    import types
+    ref = types.SimpleNamespace(rec=pre)
     order = hw.allLeaves()                  # the order in which the simulator registers (and clocks) the leaves
     if not (order.index(pb) < order.index(wf) < order.index(pa)):
         raise RuntimeError('harness: probes do not bracket the Waveform in the leaf order')
@@ -361,6 +388,8 @@ def run_plan(plan, stats=None):
                 raise Bad('raises', dict(stage='clear'), observed=repr(ex)[:200], what='clear() raises %r' % (ex,))
             pb.reset()
             pa.reset()
+            for lst in pre:
+                del lst[:]
             model = {i: [] for i in poked}
             since = 0
             cnt('clears')
@@ -378,8 +407,10 @@ def run_plan(plan, stats=None):
             cnt('checkpoints')
             if since == 0:
                 cnt('checkpoints_zero_cycles')
-            nev += _judge(plan, wf, objs, ws, pb, since, bool(st.get('short')), cnt)
-            if any(_nontrivial(pb.rec[e['wire']]) for e in plan['watch']):
+            if pb.rec != pre:
+                cnt('probe_view_differs_from_pre_cycle_snapshot')
+            nev += _judge(plan, wf, objs, ws, ref, since, bool(st.get('short')), cnt)
+            if any(_nontrivial(pre[e['wire']]) for e in plan['watch']):
                 nontriv = True
     return nev, nontriv, problems
 
